@@ -41,10 +41,10 @@ def S(scen, cores, steps, **kw):
 
 QUERIES = [
     {"name": "pool", "fn": pool,
-     "shards": {"quick": _sp([S("chain", 1, 3), S("fork", 2, 3), S("join", 2, 3), S("late", 1, 3), S("tl-chain", 1, 3), S("late-join", 2, 3), S("chain", 1, 2, faults=True)]),
-                "thorough": _sp([S(s, c, 3) for s in ("chain", "fork", "join", "late", "late-join", "tl-chain", "skip") for c in (1, 2)] + [S("chain", 1, 4), S("fork", 2, 4)] + [S("chain", 1, 3, races=True), S("join", 2, 3, races=True), S("chain", 1, 3, faults=True)])},
+     "shards": {"quick": _sp([S("chain", 1, 3), S("fork", 2, 3), S("join", 2, 3), S("late", 1, 3), S("tl-chain", 1, 3), S("late-join", 2, 3), S("chain", 1, 2, faults=True), S("blank", 1, 3)]),
+                "thorough": _sp([S(s, c, 3) for s in ("chain", "fork", "join", "late", "late-join", "tl-chain", "skip", "blank") for c in (1, 2)] + [S("chain", 1, 4), S("fork", 2, 4)] + [S("chain", 1, 3, races=True), S("join", 2, 3, races=True), S("chain", 1, 3, faults=True)])},
      "timeout": {"quick": 900, "thorough": 3000},
-     "bound": "task DAGs chain/fork/join/late-submission/time-limited-dependency on 3 tasks; event script of 3 (quick) / 4 (thorough) events, each any enabled event (exit of any live child with a symbolic "
+     "bound": "task DAGs chain/fork/join/late-submission/time-limited-dependency/chain through a task with a blank script, on 3 tasks; event script of 3 (quick) / 4 (thorough) events, each any enabled event (exit of any live child with a symbolic "
               "exit status, cancel of any task, next timer, late submission) or stop; then everything outstanding is delivered; 1 or 2 cores; thorough adds back-to-back delivery (races) and start/log faults"},
 ]
 
